@@ -4,7 +4,7 @@
 # usage: selftest/run.sh [quick|thorough] [fixes|seeded|all]   (never run while another check uses /repo)
 tier="${1:-quick}"; what="${2:-all}"
 cd /verif || exit 3
-declare -A OWNER=( [F1]=C02 [F2]=C04 [F3]=C04 [F4]=C05 [F5]=C05 [F6]=C09 [F7]=C10 [F8]=C17 )
+declare -A OWNER=( [F1]=C02 [F2]=C04 [F3]=C04 [F4]=C05 [F5]=C05 [F6]=C09 [F7]=C10 [F8]=C17 [F9]=C03 [F10]=C04 [F11]=C06 )
 pass=0; fail=0
 run_one() { # id patch prop
   out=$(tools/seedtest.sh "$2" "$3" "$tier" 2>&1); rc=$?
